@@ -89,12 +89,66 @@ Lemma get_start_facts s : acks (snd (get_start s)) = [] /\ overall (fst (get_sta
   highest (fst (get_start s)) = highest s.
 Proof. now unfold get_start. Qed.
 
+(* ---------- the blocked-output loop (WriteLoop of handleXLogData) ---------- *)
+(* the values delivered on the progress channel during the blocked ticks, and whether one of the
+   ticks finds the channel closed *)
+Definition blocked_values (bl : list (list N * bool)) : list N := flat_map fst bl.
+Definition blocked_closed (bl : list (list N * bool)) : bool := existsb snd bl.
+
+Lemma bt_acks bl : forall s sb ob e,
+  blocked_ticks s bl = (sb, ob, e) ->
+  (overall s <= overall sb)%N /\ sorted_between (overall s) (overall sb) (acks ob).
+Proof.
+  induction bl as [|[vs closed] bl IH]; intros s sb ob e; simpl.
+  - intros H; inversion H; subst. split; [lia|apply sorted_between_nil].
+  - destruct (handle_progress s true vs closed) as [[s1 o1]|] eqn:HP.
+    + destruct (blocked_ticks s1 bl) as [[s2 o2] e2] eqn:BT. intros H; inversion H; subst; clear H.
+      destruct (IH _ _ _ _ BT) as [L2 S2].
+      pose proof (hp_acks _ _ _ _ _ _ HP) as S1.
+      destruct (hp_facts _ _ _ _ _ _ HP) as (L1 & _).
+      split; [lia|]. rewrite acks_app. eapply sorted_between_app; eauto.
+    + intros H; inversion H; subst. split; [lia|apply sorted_between_nil].
+Qed.
+
+(* everything but [overall] and [conn_open] is untouched; connection requests carry the state's
+   highestWalStart; the error flag is exactly "some tick finds the channel closed" *)
+Lemma bt_frame bl : forall s sb ob e,
+  blocked_ticks s bl = (sb, ob, e) ->
+  highest sb = highest s /\ ctxn sb = ctxn s /\ ckey sb = ckey s /\ begins sb = begins s /\
+  saw_commit sb = saw_commit s /\ first_iter sb = first_iter s /\ stopped sb = stopped s /\
+  hb_count sb = hb_count s /\ hb_slow sb = hb_slow s /\
+  (conn_open s = true -> conn_open sb = true) /\
+  e = blocked_closed bl /\
+  (forall x, In x ob -> (exists f, x = CGetStart (highest s) f /\ (f = true -> conn_open s = false)) \/
+                        (exists v, x = CSend v)).
+Proof.
+  induction bl as [|[vs closed] bl IH]; intros s sb ob e; simpl.
+  - intros H; inversion H; subst. repeat split; auto. intros x [].
+  - destruct closed.
+    + assert (HN : handle_progress s true vs true = None).
+      { unfold handle_progress. destruct (absorb (overall s) vs). reflexivity. }
+      rewrite HN. intros H; inversion H; subst. repeat split; auto. intros x [].
+    + unfold handle_progress. destruct (absorb (overall s) vs) as [c u]. rewrite orb_true_r.
+      cbn [get_start]. 
+      destruct (blocked_ticks (set_conn (set_overall s c) true) bl) as [[s2 o2] e2] eqn:BT.
+      intros H; inversion H; subst; clear H.
+      destruct (IH _ _ _ _ BT) as (F1 & F2 & F3 & F4 & F5 & F6 & F7 & F8 & F9 & F10 & F11 & F12).
+      simpl in *. repeat split; auto.
+      intros x [Hx|[Hx|Hx]].
+      * left. exists (negb (conn_open s)). split; [now rewrite <- Hx|]. now destruct (conn_open s).
+      * right. eauto.
+      * destruct (F12 x Hx) as [(f & E & Ff)|Hv]; [|now right].
+        left. exists f. split; [exact E|]. intros Hf. specialize (Ff Hf). discriminate.
+Qed.
+
 (* ---------- brute-force analysis of one loop iteration ---------- *)
 (* destruct every match of the goal, keeping the equations of handleProgress calls *)
 Ltac split_step :=
   repeat match goal with
   | |- context [match handle_progress ?a ?b ?c ?d with _ => _ end] =>
       let E := fresh "HP" in destruct (handle_progress a b c d) as [[? ?]|] eqn:E
+  | |- context [match blocked_ticks ?a ?b with _ => _ end] =>
+      let E := fresh "BT" in destruct (blocked_ticks a b) as [[? ?] ?] eqn:E
   | |- context [match ?x with _ => _ end] => destruct x eqn:?
   | |- context [if ?x then _ else _] => destruct x eqn:?
   end.
@@ -112,7 +166,7 @@ Ltac hp_use :=
 Lemma cstep_acks s it s' o :
   cstep s it = (s', o) -> (overall s <= overall s')%N /\ sorted_between (overall s) (overall s') (acks o).
 Proof.
-  unfold cstep, fatal, stop, recover, heartbeat, handle_xlog, get_start.
+  unfold cstep, fatal, stop, recover, heartbeat, handle_xlog, write_loop, get_start.
   split_step; intros H; inversion H; subst; clear H;
     repeat match goal with
     | E : (_, _) = (_, _) |- _ => inversion E; subst; clear E
@@ -125,6 +179,9 @@ Proof.
         let A := fresh "A" in pose proof (hp_acks _ _ _ _ _ _ H) as A; simpl in A;
         let F := fresh "F" in pose proof (hp_facts _ _ _ _ _ _ H) as F; destruct F as (? & _); simpl in *;
         clear H
+    | H : blocked_ticks _ _ = (_, _, _) |- _ =>
+        let A := fresh "B" in pose proof (bt_acks _ _ _ _ _ H) as A; destruct A as (? & A); simpl in *;
+        clear H
     end;
     try (split; [lia|]);
     try apply sorted_between_nil;
@@ -135,7 +192,7 @@ Qed.
 (* the same analysis as a reusable tactic: every leaf of one loop iteration, with the facts of
    each handleProgress call in the context *)
 Ltac step_cases :=
-  unfold cstep, fatal, stop, recover, heartbeat, handle_xlog, get_start;
+  unfold cstep, fatal, stop, recover, heartbeat, handle_xlog, write_loop, get_start;
   split_step;
   let H := fresh in intros H; inversion H; subst; clear H;
   repeat match goal with
@@ -175,7 +232,9 @@ Qed.
 Definition start_pos (first : cev) : N :=
   match first with EKeepalive w _ _ => w | _ => 0%N end.
 
-Definition iter_values (it : citer) : list N := i_prog it ++ i_prog2 it.
+(* the values delivered on the progress channel during one iteration: at the loop head, at the
+   second handleProgress call, and at the ticks served while the output channel is full *)
+Definition iter_values (it : citer) : list N := i_prog it ++ i_prog2 it ++ blocked_values (i_blocked it).
 
 Lemma hp_source (P : N -> Prop) s force vs closed s' o :
   handle_progress s force vs closed = Some (s', o) ->
@@ -186,14 +245,31 @@ Proof.
   split; [assumption|]. destruct Ha as [->| ->]; repeat constructor; assumption.
 Qed.
 
+Lemma bt_source (P : N -> Prop) bl : forall s sb ob e,
+  blocked_ticks s bl = (sb, ob, e) ->
+  P (overall s) -> (forall v, In v (blocked_values bl) -> P v) -> P (overall sb) /\ Forall P (acks ob).
+Proof.
+  induction bl as [|[vs closed] bl IH]; intros s sb ob e; simpl.
+  - intros H; inversion H; subst. intros; split; [assumption|constructor].
+  - destruct (handle_progress s true vs closed) as [[s1 o1]|] eqn:HP.
+    + destruct (blocked_ticks s1 bl) as [[s2 o2] e2] eqn:BT. intros H HP0 Hv; inversion H; subst; clear H.
+      destruct (hp_source P _ _ _ _ _ _ HP HP0) as [P1 F1]; [intros; apply Hv; apply in_or_app; now left|].
+      destruct (IH _ _ _ _ BT P1) as [P2 F2]; [intros; apply Hv; apply in_or_app; now right|].
+      split; [assumption|]. rewrite acks_app. apply Forall_app; split; assumption.
+    + intros H; inversion H; subst. intros; split; [assumption|constructor].
+Qed.
+
 Lemma cstep_source s it s' o (P : N -> Prop) :
   cstep s it = (s', o) -> P (overall s) -> (forall v, In v (iter_values it) -> P v) ->
   P (overall s') /\ Forall P (acks o).
 Proof.
   intros Hs HP Hv. revert Hs. unfold iter_values in Hv.
   assert (Hv1 : forall v, In v (i_prog it) -> P v) by (intros; apply Hv; apply in_or_app; now left).
-  assert (Hv2 : forall v, In v (i_prog2 it) -> P v) by (intros; apply Hv; apply in_or_app; now right).
-  unfold cstep, fatal, stop, recover, heartbeat, handle_xlog, get_start.
+  assert (Hv2 : forall v, In v (i_prog2 it) -> P v)
+    by (intros; apply Hv; apply in_or_app; right; apply in_or_app; now left).
+  assert (Hv3 : forall v, In v (blocked_values (i_blocked it)) -> P v)
+    by (intros; apply Hv; apply in_or_app; right; apply in_or_app; now right).
+  unfold cstep, fatal, stop, recover, heartbeat, handle_xlog, write_loop, get_start.
   split_step; intros H; inversion H; subst; clear H;
     repeat match goal with
     | E : (_, _) = (_, _) |- _ => inversion E; subst; clear E
@@ -205,11 +281,15 @@ Proof.
     | H : handle_progress ?a _ ?vs _ = Some (_, _) |- _ =>
         let R := fresh "R" in
         assert (R := hp_source P _ _ _ _ _ _ H); simpl in R; clear H
+    | H : blocked_ticks _ _ = (_, _, _) |- _ =>
+        let R := fresh "R" in
+        assert (R := bt_source P _ _ _ _ _ H); simpl in R; clear H
     end;
     repeat match goal with
     | R : P ?x -> _ -> _ /\ _ |- _ =>
         let R1 := fresh "R" in let R2 := fresh "R" in
-        first [ destruct (R ltac:(assumption) Hv1) as [R1 R2] | destruct (R ltac:(assumption) Hv2) as [R1 R2] ]; clear R
+        first [ destruct (R ltac:(assumption) Hv1) as [R1 R2] | destruct (R ltac:(assumption) Hv2) as [R1 R2]
+              | destruct (R ltac:(assumption) Hv3) as [R1 R2] ]; clear R
     end;
     repeat rewrite Forall_app;
     repeat split; try assumption; try constructor.
